@@ -152,6 +152,10 @@ func (f *FormatterFilter) Process(ctx context.Context, e *eventlogger.Event) (*e
 	if e == nil {
 		return nil, fmt.Errorf("%s: missing event: %w", op, eventlogger.ErrInvalidParameter)
 	}
+	if e.Type == "" {
+		// the cloudevents "type" attribute is required and cannot be empty
+		return nil, fmt.Errorf("%s: missing event type: %w", op, eventlogger.ErrInvalidParameter)
+	}
 
 	var data interface{}
 	if i, ok := e.Payload.(Data); ok {
